@@ -4,6 +4,7 @@ CONSTANTS
   LongStrings = @LONGSTR@
   K = @K@
   KMut = @KMUT@
+  KJson = @KJSON@
 INIT Init
 NEXT Next
 VIEW View
